@@ -470,7 +470,7 @@ func checkC14(c *run.Ctx) {
 		// every C01 single-point mutation of the step / env / repo
 		if sig, _, err := signStep(kp, base, repo, penv); err == nil && ok {
 			sc := &signCase{Step: base, Penv: penv, Repo: repo}
-			for _, m := range c01Mutants(r, sc, sig, kp, all[kp.Kind][1], all[otherKind][0], "") {
+			for _, m := range c01Mutants(r, sc, sig, kp, all[kp.Kind][1], all[otherKind][0], "", nil) {
 				if m.AlwaysReject || m.MustAccept || strings.HasPrefix(m.Kind, "venv:") {
 					continue
 				}
